@@ -919,6 +919,55 @@ def part_d(ctx, lines, impl):
                        'seed': ctx.seed, 'expected': 1.5, 'observed': res['uniform-degenerate']})
 
 
+# ---------------------------------------------------------------------------------------------
+# E. secure FIELD types as the sectype (prime and binary fields: the integers 0..n-1 are field elements)
+# ---------------------------------------------------------------------------------------------
+FIELD_CALLS = [('f101', 101, (2, 5, 100, 101)), ('f256', 2 ** 8, (2, 3, 7, 16, 255, 256)), ('f7', 7, (7, 3)), ('f2', 2, (2,)),
+               ('f16', 2 ** 4, (2, 4, 5, 16))]
+
+
+def field_case(m, no_prss, seed, count):
+    async def prog(mpc):
+        out = {}
+        for name, order, ns in FIELD_CALLS:
+            S = mpc.SecFld(order)
+            for n in ns:
+                vals = [mr.randrange(S, n) for _ in range(count)] + [mr.randint(S, 0, n - 1) for _ in range(count // 2)]
+                out[(name, n)] = [int(v) for v in await mpc.output(vals)]
+            u = mr.random_unit_vector(S, min(order, 5))
+            out[(name, 'ruv')] = [int(v) for v in await mpc.output(u)]
+        return out
+    return SimNet(m, seed=seed, no_prss=no_prss).run(prog)
+
+
+def part_e(ctx):
+    rng = ctx.subrng('E')
+    for (m, no_prss) in ((1, False), (3, False), (3, True)):
+        seed = rng.randrange(1 << 30)
+        res = field_case(m, no_prss, seed, ctx.scale(24, 200))
+        rep = {'kind': 'field-sectype', 'm': m, 'no_prss': no_prss, 'seed': seed, 'count': ctx.scale(24, 200)}
+        if any(r != res[0] for r in res):
+            ctx.violation('random functions on secure field types: parties open different values', rep)
+            return
+        for (name, n), vals in res[0].items():
+            ctx.case(('E', name, n, m, no_prss, seed))
+            ctx.count(f'E:{name}')
+            if n == 'ruv':
+                if sorted(vals) != [0] * (len(vals) - 1) + [1]:
+                    ctx.violation(f'random_unit_vector(SecFld {name}) opened {vals}: not a unit vector', dict(rep, observed=vals))
+                    return
+                continue
+            bad = [v for v in vals if not 0 <= v < n]
+            if bad:
+                ctx.violation(f'randrange/randint(SecFld {name}, {n}) returned {bad[:4]}, outside range({n})',
+                              dict(rep, type=name, n=n, observed=bad[:8], expected=f'range({n})'))
+                return
+            if n <= 5 and len(vals) >= 30 and len(set(vals)) < n:
+                ctx.violation(f'randrange(SecFld {name}, {n}) never returned {sorted(set(range(n)) - set(vals))} in {len(vals)} draws',
+                              dict(rep, type=name, n=n, observed=sorted(set(vals))))
+                return
+
+
 def _guard(ctx, part, fn):
     """a crash or hang of the real code inside a part is a finding, not an infrastructure problem"""
     try:
@@ -938,6 +987,7 @@ def run(ctx):
         _guard(ctx, 'B-exact', lambda: part_b_exact(ctx, trees))
     _guard(ctx, 'D', lambda: part_d(ctx, lines, impl))
     _guard(ctx, 'C', lambda: part_c(ctx))
+    _guard(ctx, 'E', lambda: part_e(ctx))
     model = common.LeanDriver('RandStat').run(lines)
     ctx.compare('mpyc.random vs MpycV.Random (value, opened transcript, bits consumed)', impl, model, lines)
 
@@ -976,6 +1026,10 @@ def replay(ctx, data):
         c2 = common.Ctx('C33', 'quick', 0)
         ok = check_tree(c2, data['function'], data['n'], data['m'], leaves, cut, data['depth'])
         return ok, (c2.violations[0][0] if c2.violations else 'uniform')
+    if kind == 'field-sectype':
+        res = field_case(data['m'], data['no_prss'], data['seed'], data['count'])
+        bad = [(k, v) for k, vals in res[0].items() if k[1] != 'ruv' for v in vals if not 0 <= v < k[1]]
+        return not bad and all(r == res[0] for r in res), f'out-of-range draws: {bad[:5]}'
     if kind in ('call', 'real-bits'):
         call = tuple(data['call'])
         res = run_calls(data['m'], [call], data['seed'], no_prss=data.get('no_prss', False),
